@@ -216,6 +216,7 @@ sim_config_default(sim_config *c)
 	c->sndbuf_max      = 65536;
 	c->conn_delay_max_ns = 0;
 	c->accept_err_p    = 0;
+	c->unix_backlog_full_p = 0;
 	c->fail_alloc_k    = 0;
 	c->fail_alloc_p    = 0;
 	c->trace_level     = 1;
